@@ -27,6 +27,7 @@ type ChildSpec struct {
 	ProfOut   string   `json:"profile_out"` // hook hit counts (profile mode)
 	NoClose   bool     `json:"no_close"`    // exit without closing the engine at the end
 	SnapOut   string   `json:"snap_out"`    // when set: observe the state right after open and write it here
+	EndSnap   string   `json:"end_snap"`    // when set: observe the state after the last step, before a clean close, and write it here
 }
 
 // ChildExitCrash is the exit status of a child that died at its crash point.
@@ -92,6 +93,13 @@ func ChildMain(specPath string) error {
 		os.Exit(0)
 	}
 	Quiesce(r.Eng)
+	if spec.EndSnap != "" && !spec.Profile {
+		// what a client of THIS process sees after its last write (hooks are live:
+		// a crash point inside the observation is a crash point like any other)
+		if err := SaveSnapshot(spec.EndSnap, Observe(r.Eng, spec.Program)); err != nil {
+			return err
+		}
+	}
 	r.Close()
 	verifhook.Reset()
 	if spec.Profile && spec.ProfOut != "" {
